@@ -64,7 +64,7 @@ SeedTable == <<
   \* 7: strings and names with HTML-sensitive and other awkward characters (C12, C15)
   Obj(<< Mem(<<60,107>>, Str(<<38,62>>)),
          Mem(ca, Obj(<<Mem(ck, SLt)>>)),
-         Mem(cb, Arr(<<Str(<<8232>>), Str(<<34,92,1>>), Str(<<128512>>)>>)) >>),
+         Mem(cb, Arr(<<Str(<<8232>>), Str(<<34,92,1>>), Str(<<128512>>), Str(<<8361, 8744, 8233>>)>>)) >>),   \* U+20A9 U+2228: UTF-8 E2 xx A9 / A8
   \* 8, 9: empty roots
   Obj(<<>>),
   Arr(<<>>),
@@ -77,7 +77,7 @@ SeedTable == <<
 
 ValTable == <<
   Null, N1, N10, SS, SLt, Obj(<<>>), Arr(<<>>), Arr(<<Null>>), Obj(<<Mem(ca, Null)>>),
-  Obj(<<Mem(cb, Arr(<<N1>>))>>), Bool(TRUE), N2
+  Obj(<<Mem(cb, Arr(<<N1>>))>>), Bool(TRUE), N2, Arr(<<NE400, Str(<<8361>>)>>)
 >>
 
 O(neg, limit, allow, ensure, esc) == [neg |-> neg, limit |-> limit, allow |-> allow, ensure |-> ensure, esc |-> esc]
